@@ -265,7 +265,7 @@ def run(ctx):
         def opts_fn(i, rng):
             return jsgen.Opts(clean=(i % 3 != 0), unicode_idents=(i % 5 == 0),
                               string_continuations=(i % 4 == 0))
-        progs = work.Programs(ctx, ctx.pick(330, 6500), opts_fn=opts_fn, valid_only=False)
+        progs = work.Programs(ctx, ctx.per_shard(330, 6500), opts_fn=opts_fn, valid_only=False)
         rng = ctx.rng
         for text, meta in progs:
             toks = meta['toks']
